@@ -6,8 +6,8 @@ SPEC = dict(
     level="proof",
     design_ref="DESIGN.md §5 C03",
     technique="Lean 4: comparison/equality/top/default laws as a second per-constructor lawfulness bundle (all nestings by induction) + differential correspondence",
-    level_text=("Theorems, for every type of the universe except DomPair (as C01, at every nesting depth, with MapUnion/WithBot over a "
-                "non-degenerate value lattice) and all well-formed values: partial_cmp equals naive_cmp (the comparison read off the two "
+    level_text=("Theorems, for every type of the universe (as C01 incl. DomPair over a totally ordered key, at every nesting depth, with "
+                "MapUnion/WithBot over a non-degenerate value lattice) and all well-formed values: partial_cmp equals naive_cmp (the comparison read off the two "
                 "merge flags), a <= b iff merging a into b leaves b unchanged, == iff partial_cmp == Equal iff same lattice value, "
                 "== is an equivalence, <= is reflexive / antisymmetric / transitive (also strictly) / dual, comparisons do not depend "
                 "on the representation, is_bot iff least, is_top iff greatest, bottoms are unique and is_bot respects ==, default is "
@@ -19,7 +19,7 @@ SPEC = dict(
                 "independent specification and against a pool of values, default is bottom. "
                 "F1 (WithTop::is_top true for Some(top)) was reproduced by this check, fixed in /repo and the model follows the fix. "
                 "F11 (known): is_top is false on one-point instantiations WithBot<()> / MapUnion<_,()> - outside the theorems' domain, "
-                "witness proved as degenerate_isTop_refuted. PARTIAL: DomPair's comparison laws (total key) not yet proved; Point's "
+                "witness proved as degenerate_isTop_refuted. PARTIAL: Point's "
                 "panicking partial_cmp is modelled and diffed only; union-find/tombstones are C04/C05."),
     level_note=("Trusted as C01. is_top-iff-greatest for SetUnion/MapUnion/VecUnion uses that the element/key type is unbounded in the "
                 "model (u32 in the harness); a set over a finite element type (e.g. bool) has a greatest element the code does not report."),
